@@ -229,7 +229,7 @@ static Verdict do_stack(const Tmpl &t, size_t depth, long limit, size_t chunk, s
 
 // ---------------------------------------------------------------- heap runs
 struct HeapOutcome { long refusals = 0; size_t worst = 0; size_t peak = 0; int code = RC_WMORE; };
-static Verdict do_heap(asn_TYPE_descriptor_t *td, Syntax sy, const Bytes &S, const std::vector<Op> &ops, bool enforce, HeapOutcome &ho) {
+static Verdict do_heap(asn_TYPE_descriptor_t *td, Syntax sy, const Bytes &S, const std::vector<Op> &ops, bool enforce, HeapOutcome &ho, long A = HEAP_A, long B = HEAP_B) {
     Verdict v;
     sim_alloc_reset();
     void *st = nullptr;
@@ -240,7 +240,7 @@ static Verdict do_heap(asn_TYPE_descriptor_t *td, Syntax sy, const Bytes &S, con
         if(d < 0 || (size_t)d > S.size() - avail) d = (long)(S.size() - avail);
         avail += (size_t)d;
         status_progress();
-        if(enforce) sim_alloc_set_budget(HEAP_A * (long)avail + HEAP_B);
+        if(enforce) sim_alloc_set_budget(A * (long)avail + B);
         DecResult r = decode_call(td, sy, &st, S.data() + off, avail - off);
         sim_alloc_set_budget(-1);
         EV.ev("heap deliver %ld avail %zu -> %s %zu peak=%zu refusals=%ld", d, avail, r.aborted ? "ABORT" : rc_name(r.code), r.consumed, sim_alloc_peak_bytes(), sim_alloc_budget_refusals());
@@ -250,7 +250,7 @@ static Verdict do_heap(asn_TYPE_descriptor_t *td, Syntax sy, const Bytes &S, con
             ho.refusals = sim_alloc_budget_refusals(); ho.worst = sim_alloc_budget_worst_request();
             v.violated = true; v.cls = "heap-bomb"; v.site = std::string(syntax_name(sy)) + "/" + kind_name(kind_of(td));
             v.detail = "decoder asked for " + L((long)ho.worst) + " bytes (live " + L((long)sim_alloc_live_bytes()) + ") with only " + L((long)avail)
-                       + " input bytes delivered; budget " + L(HEAP_A) + "*n+" + L(HEAP_B);
+                       + " input bytes delivered; budget " + L(A) + "*n+" + L(B);
             break;
         }
         off += r.consumed;
@@ -303,6 +303,55 @@ static Bytes hostile(const Bytes &E, Syntax sy, Rng &r, std::string &how) {
     return S;
 }
 
+// ---------------------------------------------------------------- bulk runs: large VALID inputs (a well-behaved but generous peer)
+// A value with one big payload is built from XER text, encoded by the library in each syntax, and decoded - optionally as an
+// older version of the type that has to skip the payload as an unknown addition - in 16K deliveries. Payloads are octets,
+// characters or bits, so the heap a decoder may hold is a small multiple of what has arrived: HEAP_A_BULK bytes per byte
+// (>= 4x the largest ratio measured on the pinned tree, SIM_C15_CALIBRATE=1) instead of the 1024 that one-bit elements need.
+// This is what exposes super-linear growth policies (a buffer that is re-grown geometrically per fragment).
+static const long HEAP_A_BULK = 24;
+struct Bulk { const char *name; const char *type; const char *decode_as; std::string (*xer)(size_t k); };
+static std::string hexrun(size_t k) { return std::string(2 * k, 'A'); }
+static const Bulk BULKS[] = {
+    {"bigstr", "BigStr", "BigStr", [](size_t k) { return "<BigStr>" + hexrun(k) + "</BigStr>"; }},
+    {"bigbits", "BigBits", "BigBits", [](size_t k) { return "<BigBits>" + std::string(8 * k, '1') + "</BigBits>"; }},
+    {"bigutf", "BigUtf", "BigUtf", [](size_t k) { return "<BigUtf>" + std::string(k, 'x') + "</BigUtf>"; }},
+    {"unilong", "UniLong", "UniLong", [](size_t k) { return "<UniLong>" + std::string(k / 4, 'x') + "</UniLong>"; }},
+    {"bmplong", "BmpLong", "BmpLong", [](size_t k) { return "<BmpLong>" + std::string(k / 2, 'x') + "</BmpLong>"; }},
+    {"blob.root", "Blob", "Blob", [](size_t k) { return "<Blob><a>" + hexrun(k) + "</a><c></c></Blob>"; }},
+    {"blob.addition", "Blob", "Blob", [](size_t k) { return "<Blob><a>00</a><c></c><d>" + std::string(k, 'x') + "</d></Blob>"; }},
+    {"blob.addition-skipped", "Blob", "BlobV1", [](size_t k) { return "<Blob><a>00</a><c></c><d>" + std::string(k - k % 3, 'x') + "</d></Blob>"; }},
+    {"extch.addition", "ExtCh", "ExtCh", [](size_t k) { return "<ExtCh><b>" + hexrun(k) + "</b></ExtCh>"; }},
+    {"octrange", "OctRange", "OctRange", [](size_t k) { return "<OctRange>" + hexrun(k < 70000 ? k : 70000) + "</OctRange>"; }},
+};
+static const int NBULK = sizeof(BULKS) / sizeof(BULKS[0]);
+static const size_t BULK_SIZES[] = {40000, 140000, 400000};
+// builds the input; returns false when this program / syntax cannot produce it
+static bool bulk_input(const Bulk &b, size_t k, Syntax sy, Bytes &S) {
+    asn_TYPE_descriptor_t *td = pdu_by_name(b.type);
+    if(!td || !pdu_by_name(b.decode_as)) return false;
+    std::string x = b.xer(k);
+    void *st = nullptr;
+    DecResult r = decode_call(td, SY_XER, &st, (const uint8_t *)x.data(), x.size());
+    bool ok = !r.aborted && r.code == RC_OK && st;
+    if(ok) { EncResult e = encode_to_vec(td, st, sy); ok = !e.aborted && e.encoded >= 0; if(ok) S = e.out; }
+    if(st && !r.aborted) free_struct(td, st);
+    sim_alloc_free_all_live();
+    return ok;
+}
+static Verdict do_bulk(const Bulk &b, size_t k, Syntax sy, size_t chunk, HeapOutcome &ho, size_t *n_out, bool enforce, bool *made) {
+    Bytes S; Verdict v;
+    *made = bulk_input(b, k, sy, S);
+    if(!*made) return v;
+    if(n_out) *n_out = S.size();
+    std::vector<Op> ops;
+    if(chunk && sy != SY_UPER) for(size_t left = S.size(); left > chunk; left -= chunk) ops.push_back(mkop("deliver", {L((long)chunk)}));
+    ops.push_back(mkop("deliver", {"rest"}));
+    v = do_heap(pdu_by_name(b.decode_as), sy, S, ops, enforce, ho, HEAP_A_BULK, HEAP_B);
+    if(v.violated && v.cls == "heap-bomb") v.site = std::string("bulk:") + b.name + "/" + syntax_name(sy);
+    return v;
+}
+
 static std::string ops_str(const std::vector<Op> &ops) { std::string s; for(auto &o : ops) s += o.str(); return s; }
 
 static const size_t DEPTHS[] = {10, 100, 1000, 10000, 100000};
@@ -332,6 +381,25 @@ static void c15_run(uint64_t seed, uint64_t index, bool thorough) {
         G.seen("c15.stack_cases", hash_str(head.head_str()));
         if(v.violated) report_violation("C15", mk_sig(v), v.detail, head.head_str() + "op deliver rest\n");
         if(G.samples.size() < 2) G.samples.push_back(head.head_str() + "op deliver rest\n");
+        return;
+    }
+    // ---- bulk runs: enumerate templates x sizes x syntaxes over the indices right after the stack grid, then sample
+    size_t bgrid = (size_t)NBULK * 3 * 4;
+    if(index >= grid && (index < grid + bgrid || index % 16 == 2)) {
+        size_t bi = index < grid + bgrid ? (size_t)(index - grid) : (size_t)r.below(bgrid);
+        static const Syntax bsy[] = {SY_DER, SY_OER, SY_UPER, SY_XER};
+        const Bulk &b = BULKS[bi / 12]; size_t k = BULK_SIZES[(bi / 4) % 3]; Syntax sy = bsy[bi % 4];
+        size_t chunk = index < grid + bgrid ? 16384 : (size_t)(1 + rs.below(65536));
+        Plan head; head.set("property", "C15"); head.set("program", SIM_PROGRAM); head.set("mode", "bulk"); head.set("template", b.name);
+        head.set("size", L((long)k)); head.set("syntax", syntax_name(sy)); head.set("chunk", L((long)chunk)); head.set("budget", "A=" + L(HEAP_A_BULK) + " B=" + L(HEAP_B));
+        status_head(head.head_str()); status_ops("op deliver rest\n");
+        HeapOutcome ho; size_t n = 0; bool made = false;
+        Verdict v = do_bulk(b, k, sy, chunk, ho, &n, !calibrate, &made);
+        if(!made) { G.add("c15.skip.bulk_input_not_made"); return; }
+        G.add("c15.decodes"); G.add("c15.bulk_runs"); G.add(std::string("c15.bulk.rc.") + rc_name(ho.code)); G.add("c15.fired.bulk_payload");
+        G.max("c15.bulk_max_input_bytes", n); G.seen("c15.heap_cases", hash_str(head.head_str()));
+        if(calibrate && n) G.max(std::string("c15.cal.bulk_ratio_x100.") + b.name + "." + syntax_name(sy), (uint64_t)(100.0 * (double)ho.peak / (double)n));
+        if(v.violated) report_violation("C15", mk_sig(v), v.detail, head.head_str() + "op deliver rest\n");
         return;
     }
     // ---- heap runs
@@ -383,6 +451,16 @@ static ReplayResult c15_replay(const Plan &p) {
         if(!t) { rr.skipped = true; rr.detail = "template not valid for this program"; return rr; }
         std::string lim = p.get("limit");
         Verdict v = do_stack(*t, (size_t)p.getl("depth", 10), lim == "default" ? -1 : strtol(lim.c_str(), 0, 10), (size_t)p.getl("chunk", 0), nullptr, nullptr);
+        rr.violated = v.violated; if(v.violated) { rr.sig = mk_sig(v); rr.detail = v.detail; }
+        return rr;
+    }
+    if(p.get("mode") == "bulk") {
+        const Bulk *b = nullptr; Syntax bsy;
+        for(int i = 0; i < NBULK; i++) if(p.get("template") == BULKS[i].name) b = &BULKS[i];
+        if(!b || !syntax_from_name(p.get("syntax"), bsy)) { rr.skipped = true; rr.detail = "unknown bulk template"; return rr; }
+        HeapOutcome ho; bool made = false;
+        Verdict v = do_bulk(*b, (size_t)p.getl("size", 40000), bsy, (size_t)p.getl("chunk", 0), ho, nullptr, true, &made);
+        if(!made) { rr.skipped = true; rr.detail = "bulk input could not be built for this program"; return rr; }
         rr.violated = v.violated; if(v.violated) { rr.sig = mk_sig(v); rr.detail = v.detail; }
         return rr;
     }
